@@ -7,6 +7,10 @@ SALS = [9, 5, 5, 1, -2]
 # the always-failing rule pd never TIES with another rule: among equal saliences the order is Go's map iteration order, and with
 # pd in a tie the result of the mix / inverse-mix models would depend on it (a false alarm of seed 21 before this was separated)
 SALS_PD = [12, 7, 4, 0, -4]
+# ... and, since a failure makes the inverse-mix model skip the LOWEST rule, no two rules tie at all: every name draws from a pool of
+# its own (a thorough run found pb and pc tied at the bottom next to a failing pd: which of them was skipped was the map order's
+# choice).  Ties between rules are C08's subject; a rule re-submitted with an unchanged salience still occurs (small pools)
+SALS_BY_NAME = {"pa": [9, 11, 1], "pb": [6, 8, -2], "pc": [3, 10, -3], "pd": SALS_PD}     # pairwise disjoint, and containing the initial 9 / 6 / 3
 
 
 class Gen:
@@ -18,7 +22,7 @@ class Gen:
         self.ver += 1
         # the rule named "pd" always FAILS (Pool/Check.v probe_fails): with a failing rule in the set the result map depends on
         # the execution model, so the model the pool really uses becomes observable
-        return [{"name": n, "sal": self.rng.choice(SALS_PD if n == "pd" else SALS), "desc": "v%d" % self.ver, "kind": "fail" if n == "pd" else "ret", "ver": self.ver} for n in names]
+        return [{"name": n, "sal": self.rng.choice(SALS_BY_NAME.get(n, SALS)), "desc": "v%d" % self.ver, "kind": "fail" if n == "pd" else "ret", "ver": self.ver} for n in names]
 
     def op(self, kind=None):
         r = self.rng
